@@ -13,21 +13,38 @@ def run(R):
     nsys = 8 if R.tier == "quick" else 120
     R.rule = ("underdetermined systems 2-4 receptors + 1-3 surplus sources, lb zero/positive, finite ub, optionally 1..surplus sources "
               "clamped by their bounds (lb[i] == ub[i], zero or non-zero), K none/scalar/vector/matrix, baseline, weights (none / one "
-              "vector / one row per sample); 1-7 in-gamut targets per call (single target, as many targets as sources, as many as "
+              "vector / one row per sample); every fourth system (and a few others) has a pair of NEARLY interchangeable sources (one capture vector = another "
+              "one times 1 +- 2^-11..2^-15); 1-7 in-gamut targets per call (single target, as many targets as sources, as many as "
               "receptors, other counts), targets as array/list/Fortran/strided; every option value {'l2','min','max','var', number "
               "(python float, numpy scalar, python int when whole), vector (also with entries outside the bounds, whole-number vectors "
               "also as integer arrays, strided views)}; tolerances 1e-6..1e-3; via lsq_linear_underdetermined and fit_underdetermined. "
-              "The one option value of a call applies to every target of the call. For every row: exact feasibility of dreye's answer "
+              "The one option value of a call applies to every target of the call. LONG calls (own systems, 1 per quick run): 51-90 targets in one call - every row "
+              "is judged by the float predicates (bounds, prediction, ||W(pred-b)|| <= 1.05 l2_eps + 1e-7), 6 sampled rows (first and last included) also exactly. For every row: exact feasibility of dreye's answer "
               "in Q (bounds, ||W(A'x-b')|| <= l2_eps) and a certified bound goal(x) <= goal(y) + delta for EVERY feasible y from "
-              "multipliers accepted by the verified linLower (theorems linear/quadratic_goal_of_cert); total, variance and distance "
+              "multipliers accepted by the verified linLower (theorems linear/quadratic_goal_of_cert; delta <= 5e-7 x scale for the linear goals min/max, 1e-4 x scale for the quadratic ones); total, variance and distance "
               "are taken over ALL sources (clamped ones included). Non-trivial: the secondary goal is not attained at a vertex "
               "trivially, i.e. every case with >= 1 surplus source.")
     OPTS = ["l2", "min", "max", "var", "number", "vector", "vector_out"]
     jobs = []
-    for si in range(nsys):
+    nlong = 1 if R.tier == "quick" else 6
+    for si in list(range(nsys)) + [nsys + 1000 + j for j in range(nlong)]:
+        long_call = si >= nsys
         rng = R.rng(1, si)
         nf = int(rng.integers(2, 5)); ns = nf + int(rng.integers(1, 4))
         A = gen_A(rng, nf, ns, lo=0.25, hi=3.0, bits=2)
+        # two nominally identical sources (own random stream; every fourth system and a few others): the capture vector of one source is
+        # that of another one times 1 +- 2^-e, e = 11..15 (two LEDs of the same type whose efficiencies differ by 0.003 % .. 0.05 %): the
+        # sources are nearly - not exactly - interchangeable, so that e.g. the smallest total intensity is attained by using the more
+        # efficient of the two only, by a small margin
+        rdup = R.rng(4, si)
+        dup = "none"
+        if si % 4 == 1 or rdup.random() < 0.15:
+            j1, j2 = [int(v) for v in rdup.permutation(ns)[:2]]
+            e_ = int(rdup.integers(11, 16)); sg = 1.0 if rdup.integers(2) else -1.0
+            A2 = A.copy(); A2[:, j2] = A[:, j1] * (1.0 + sg * 2.0 ** -e_)
+            if np.linalg.matrix_rank(np.delete(A2, j2, axis=1)) == nf:
+                A = A2; dup = "rel. difference 2^-%d" % e_
+        R.count("near-duplicate pair of sources:" + dup)
         kk, K = gen_K(rng, nf)
         bk, base = gen_baseline(rng, nf)
         lbk = str(rng.choice(["zero", "pos"]))
@@ -37,6 +54,11 @@ def run(R):
         w = None if rng.integers(2) else dyadic(rng, 0.5, 2, 2, size=nf)
         for oi, oname in enumerate(OPTS):
             k = "s%d_%s" % (si, oname)
+            if long_call:
+                # a LONG call (own systems, `nlong` per run): one option value, 51-90 targets (the frames of a sequence) in ONE call
+                if oi != int(R.rng(3, si).integers(len(OPTS))):
+                    continue
+                k = "L%d_%s" % (si - nsys - 1000, oname)
             if not R.want(k):
                 continue
             rr = R.rng(2, si, oi)
@@ -52,6 +74,8 @@ def run(R):
             # number of targets of the call: the coinciding sizes (ns, nf) are part of the class
             nbk = str(rr.choice(["one", "one", "n_sources", "n_receptors", "other"]))
             nb = {"one": 1, "n_sources": ns, "n_receptors": nf}.get(nbk) or int(rr.integers(2, 7))
+            if long_call:
+                nbk = "long (51-90)"; nb = int(rr.integers(51, 91))
             R.count("n_targets:" + nbk); R.count("n_targets=%d" % nb)
             XT = lb + dyadic(rr, 0.25, 0.75, 3, size=(nb, ns)) * (ub - lb)
             B = XT @ Ap.T + bp
@@ -90,7 +114,9 @@ def run(R):
             R.count("opt_repr:%s:%s" % (oname, opt_repr))
             Bgiven = as_given(rr, B, R, "B")
             c = dict(k=k, option=oname, opt=opt, opt_repr=opt_repr, nf=nf, ns=ns, nb=nb, A=A, K=K, K_kind=kk, baseline=base, baseline_kind=bk, lb=lb, ub=ub,
-                     w=wgiven, w_kind=wk, B=B, l2_eps=eps, via=via, clamped=nclamp)
+                     w=wgiven, w_kind=wk, B=B, l2_eps=eps, via=via, clamped=nclamp, near_duplicate_sources=dup)
+            if long_call:
+                c["_long"] = dict(Wrows=Wrows)
             for key in ("option", "K_kind", "baseline_kind", "via"):
                 R.count("%s:%s" % (key, c[key]))
             R.count("eps:%g" % eps); R.count("lb:" + lbk)
@@ -105,7 +131,12 @@ def run(R):
                 if X.shape != (nb, ns) or BP.shape != (nb, nf):
                     st, out = "shape", "returned shapes %s, %s for %d targets, %d sources, %d receptors" % (X.shape, BP.shape, nb, ns, nf)
             rows = []
-            for i in range(nb):
+            # a long call: every row is judged by the float predicates (bounds, prediction, target reproduced within l2_eps); a random
+            # sample of 6 rows (first and last included) also exactly (feasibility in Q, certified optimality of the secondary goal)
+            judged = range(nb) if not long_call else sorted({0, nb - 1} | set(int(v) for v in rr.permutation(nb)[:4]))
+            if long_call:
+                c["exactly_judged_rows"] = list(judged)
+            for i in judged:
                 R.driver.ask("p%s_%d" % (k, i), "prep", ns, K_text(K), ms(A), vs(np.atleast_1d(base)), vs(Wrows[i]), vs(B[i]))
                 rows.append(dict(i=i, k="%s_%d" % (k, i), b=B[i], wv=Wrows[i]))
             jobs.append((c, st, out, Ap, bp, rows))
@@ -154,6 +185,25 @@ def run(R):
             else:
                 R.failB(dict(pubc, impl_error=out), "underdetermined fit raised %s: %s" % (st, out), sig + ":raises:" + st)
             continue
+        if "_long" in c:
+            Xl = np.asarray(out[0]); Bl = np.asarray(out[1]); Wl = c["_long"]["Wrows"]
+            rngb = c["ub"] - c["lb"]
+            tolb = 1e-6 * np.where(rngb > 0, rngb, max(float(np.max(rngb)), float(np.max(np.abs(c["ub"])))))
+            errs = np.linalg.norm(Wl * (Bl - c["B"]), axis=1)
+            badb = np.flatnonzero(np.any(Xl < c["lb"] - tolb, axis=1) | np.any(Xl > c["ub"] + tolb, axis=1))
+            badp = np.flatnonzero(np.max(np.abs(Bl - (Xl @ Ap.T + bp)), axis=1) > 1e-9 * (np.max(np.abs(Bl), axis=1) + 1))
+            bade = np.flatnonzero(errs > c["l2_eps"] * 1.05 + 1e-7)
+            R.case(dict(pubc, rows="all %d" % c["nb"]), (c["k"], "all-rows"), sample=False)
+            if len(badb):
+                i = int(badb[0])
+                R.failB(dict(pubc, row=i, impl=Xl[i], n_rows_failing=len(badb)), "long call: intensities %s of row %d violate the bounds (%d of %d rows)" % (Xl[i].tolist(), i, len(badb), c["nb"]), sig + ":bounds")
+            if len(badp):
+                i = int(badp[0])
+                R.failB(dict(pubc, row=i, impl=[Xl[i], Bl[i]]), "long call: returned prediction of row %d is not the model's capture of the returned intensities" % i, sig + ":pred-mismatch")
+            if len(bade):
+                i = int(np.argmax(errs))
+                R.failB(dict(pubc, row=i, impl=[Xl[i], Bl[i]], error=float(errs[i]), n_rows_failing=len(bade)),
+                        "long call (%d targets): target %d not reproduced within the tolerance: ||W(pred-b)|| = %.3g > l2_eps = %g (%d of %d rows)" % (c["nb"], i, float(errs[i]), c["l2_eps"], len(bade), c["nb"]), sig + ":not-reproduced")
         for r in rows:
             k = r["k"]
             pub = dict(pubc, k=k, row=r["i"], b=r["b"])
@@ -185,7 +235,12 @@ def run(R):
                 R.failB(dict(pub, impl=[xhat, Bp], error=err), "target not reproduced within the tolerance: ||W(pred-b)|| = %.3g > l2_eps = %g" % (err, c["l2_eps"]), sig + ":not-reproduced")
             scale = 1.0 if r["mode"][0] == "lin" else r["mode"][3]
             obj_scale = (abs(float(objv)) if objv is not None else 0.0) / scale + float(np.sum(c["ub"]))
-            ok = best is not None and float(best) / scale <= 1e-4 * obj_scale
+            # allowance for the solver's accuracy. A LINEAR goal (smallest / largest total) is certified against the exact feasible set, so the
+            # only slack is the solver's duality gap (1e-8 class: largest value seen on the unchanged code over a thorough run 5e-9 x scale): 5e-7 x
+            # scale - a few 1e-6 in total intensity, the size of the margin by which one of two nearly interchangeable sources beats the other
+            lin = r["mode"][0] == "lin"
+            tol_rel = 5e-7 if lin else 1e-4
+            ok = best is not None and float(best) / scale <= tol_rel * obj_scale
             R.cert(ok)
             if not ok:
                 # search for a better feasible point with an independent solve before calling it a violation
@@ -202,8 +257,12 @@ def run(R):
                     better = pr.value
                 except Exception:  # noqa: BLE001
                     better = None
-                if better is not None and cur - better > 1e-3 * obj_scale * scale:
-                    R.failB(dict(pub, impl=xhat, better_point=np.asarray(y.value), goal_impl=cur / scale, goal_better=better / scale),
+                if better is not None and lin and y.value is not None:
+                    # the witness of a linear goal is judged in floats: clipped into the bounds it must still reproduce the target
+                    yv = np.clip(np.asarray(y.value, dtype=float), c["lb"], c["ub"])
+                    better = float(r["mode"][1] @ yv) if float(np.linalg.norm(Cf @ yv - df)) <= c["l2_eps"] * (1 + 1e-5) else None
+                if better is not None and cur - better > (0.5 * tol_rel if lin else 1e-3) * obj_scale * scale:
+                    R.failB(dict(pub, impl=xhat, better_point=(yv if lin else np.asarray(y.value)), goal_impl=cur / scale, goal_better=better / scale),
                             "secondary goal '%s' is %.6g at the returned intensities but %.6g at another in-bound point that reproduces the target" % (c["option"], cur / scale, better / scale), sig + ":suboptimal")
                 else:
                     R.failA(dict(pub, delta=None if best is None else float(best)), "secondary goal not certified optimal (delta %s)" % (None if best is None else float(best)))
